@@ -274,6 +274,12 @@ func (fr *Frame) unop(in *ssa.UnOp, st *State, pos string) Val {
 				vc.sentUse[t.Op] = true
 				return &VS{t}
 			}
+			if len(p.Path) == 0 && leafSort(et) == SRef && vc.eng.initOnceNonNil(g) {
+				v := vc.loadPtr(st, p, et)
+				vc.assume(st, mkNeq(scalarOf(v, et), tNull))
+				vc.note("package-level reference variables initialised once by a constructor call or composite literal and never reassigned are non-nil")
+				return v
+			}
 		}
 		return vc.loadPtr(st, p, et)
 	case token.SUB:
@@ -776,7 +782,8 @@ func (vc *VC) mapLoad(st *State, m *Term, mt *types.Map, k *Term) (Val, *Term) {
 }
 
 func (vc *VC) mapFacts(st *State, mt *types.Map, m *Term) {
-	vc.assume(st, mkCmp(">=", vc.mapLen(st, mt, m), mkInt(0)))
+	n := vc.mapLen(st, mt, m)
+	vc.assume(st, mkAnd(mkCmp(">=", n, mkInt(0)), mkCmp("<=", n, mkBig(pow2(62)))))
 }
 
 func (fr *Frame) lookup(in *ssa.Lookup, st *State, pos string) Val {
